@@ -49,3 +49,13 @@ Theorem C07_alias_token_marked :
     exists t rest, ls_toks st' = t :: rest /\ rest = ls_toks st /\ tk t = k /\ tv t = TVText u /\ tnorm t = Some m /\
                    tline t = ls_line st /\ tcol t = ls_col st.
 Proof. exact emit_pat_alias_marked. Qed.
+
+From OV Require Import Rt.TokRound2 Rt.TokRound2Ex Rt.LexLink2Text Rt.LexLink2.
+(* canonical text of the wider core2 fragment is silent as well (comments, lists, sections, META) *)
+Theorem C07_text_canonical_silent_core2 :
+  forall cls numcanon holo_ok strict sp d,
+    core2_doc d = true -> lex_safe2_doc d = true ->
+    nums_ok2_l numcanon ex_idnum (dsections d) -> Forall (field_num_ok numcanon) (dmeta d) ->
+    exists warns, parse_model cls numcanon holo_ok strict (lines_of (emit sp d)) = PRDoc d [] warns /\
+                  Forall (fun w => wsub w = 5%N \/ wsub w = 9%N) warns.
+Proof. exact text_roundtrip_core2. Qed.
